@@ -27,6 +27,7 @@ CONSTANTS
     FnRaisesSets,   \* set of subsets of F: candidates for "these functions raise when called"
     FnDefers,       \* [F -> F \cup {0}]: function deferred by a function when it is called (acyclic)
     Times, Deltas, Steps,   \* argument grids of InstallAt / InstallAfter / Run
+    OffGrid,        \* argument grid of InstallRecOff (offsets a recurring task is re-installed with)
     TickSteps,      \* argument grid of Tick (the clock moves while the loop is not running)
     MaxLevel,       \* bound on behaviour length for exhaustive checking
     MgrAtStart,     \* BOOLEAN: a task manager exists from the beginning (FALSE: tasks are installed before it is created)
@@ -47,10 +48,11 @@ VARIABLES
     act,        \* the step that produced this state (makes state-graph dumps self-describing)
     TaskRaises, \* which tasks raise (chosen once, in Init)
     FnRaises,   \* which deferred functions raise (chosen once, in Init)
+    off,        \* [K -> Nat] the offset a recurring task currently carries (RecurringTask.taskIntervalOffset; starts as Offset)
     mgr,        \* the task manager exists (task._task_manager)
     early       \* tasks installed before it existed, in the order of the calls (task._unscheduled_tasks)
 
-vars == <<now, q, sched, due, instAt, defq, out, called, submitted, calledLog, act, TaskRaises, FnRaises, mgr, early>>
+vars == <<now, q, sched, due, instAt, defq, out, called, submitted, calledLog, act, TaskRaises, FnRaises, off, mgr, early>>
 NONE == -1
 
 ----------------------------------------------------------------------------
@@ -71,40 +73,51 @@ Init ==
     /\ act = [op |-> "init", k |-> 0, a |-> 0]
     /\ TaskRaises \in TaskRaisesSets /\ FnRaises \in FnRaisesSets
     /\ mgr = MgrAtStart /\ early = <<>>
+    /\ off = [k \in K |-> IF k \in Rec THEN Offset[k] ELSE 0]
 
 Quiet == out' = <<>> /\ called' = <<>> /\ UNCHANGED <<calledLog, TaskRaises, FnRaises, mgr, early>>
+QuietOff == Quiet /\ UNCHANGED off
 
 InstallAt(k, t) ==
     /\ k \notin Rec
     /\ q' = Insert(Remove(q, k), t, k) /\ sched' = [sched EXCEPT ![k] = TRUE]
     /\ due' = [due EXCEPT ![k] = t] /\ instAt' = [instAt EXCEPT ![k] = now]
-    /\ act' = [op |-> "at", k |-> k, a |-> t] /\ Quiet /\ UNCHANGED <<now, defq, submitted>>
+    /\ act' = [op |-> "at", k |-> k, a |-> t] /\ QuietOff /\ UNCHANGED <<now, defq, submitted>>
 
 InstallAfter(k, d) ==
     /\ k \notin Rec
     /\ q' = Insert(Remove(q, k), now + d, k) /\ sched' = [sched EXCEPT ![k] = TRUE]
     /\ due' = [due EXCEPT ![k] = now + d] /\ instAt' = [instAt EXCEPT ![k] = now]
-    /\ act' = [op |-> "after", k |-> k, a |-> d] /\ Quiet /\ UNCHANGED <<now, defq, submitted>>
+    /\ act' = [op |-> "after", k |-> k, a |-> d] /\ QuietOff /\ UNCHANGED <<now, defq, submitted>>
 
 InstallRec(k) ==
     /\ k \in Rec
-    /\ LET t == NextSlot(now, Interval[k], Offset[k]) IN
+    /\ LET t == NextSlot(now, Interval[k], off[k]) IN
         /\ q' = Insert(Remove(q, k), t, k) /\ due' = [due EXCEPT ![k] = t]
     /\ sched' = [sched EXCEPT ![k] = TRUE] /\ instAt' = [instAt EXCEPT ![k] = now]
-    /\ act' = [op |-> "rec", k |-> k, a |-> 0] /\ Quiet /\ UNCHANGED <<now, defq, submitted>>
+    /\ act' = [op |-> "rec", k |-> k, a |-> 0] /\ QuietOff /\ UNCHANGED <<now, defq, submitted>>
+
+\* the same recurring task object installed again with an explicit offset (install_task(offset=o); 0 is an offset like any other)
+InstallRecOff(k, o) ==
+    /\ k \in Rec
+    /\ off' = [off EXCEPT ![k] = o]
+    /\ LET t == NextSlot(now, Interval[k], o) IN
+        /\ q' = Insert(Remove(q, k), t, k) /\ due' = [due EXCEPT ![k] = t]
+    /\ sched' = [sched EXCEPT ![k] = TRUE] /\ instAt' = [instAt EXCEPT ![k] = now]
+    /\ act' = [op |-> "reoff", k |-> k, a |-> o] /\ Quiet /\ UNCHANGED <<now, defq, submitted>>
 
 Suspend(k) ==
     /\ q' = Remove(q, k) /\ sched' = [sched EXCEPT ![k] = IF InQ(q, k) THEN FALSE ELSE @]
-    /\ act' = [op |-> "suspend", k |-> k, a |-> 0] /\ Quiet /\ UNCHANGED <<now, due, instAt, defq, submitted>>
+    /\ act' = [op |-> "suspend", k |-> k, a |-> 0] /\ QuietOff /\ UNCHANGED <<now, due, instAt, defq, submitted>>
 
 Resume(k) ==
     /\ due[k] # NONE
     /\ q' = Insert(Remove(q, k), due[k], k) /\ sched' = [sched EXCEPT ![k] = TRUE]
-    /\ act' = [op |-> "resume", k |-> k, a |-> 0] /\ Quiet /\ UNCHANGED <<now, due, instAt, defq, submitted>>
+    /\ act' = [op |-> "resume", k |-> k, a |-> 0] /\ QuietOff /\ UNCHANGED <<now, due, instAt, defq, submitted>>
 
 Defer(f) ==
     /\ defq' = Append(defq, f) /\ submitted' = Append(submitted, f)
-    /\ act' = [op |-> "defer", k |-> f, a |-> 0] /\ Quiet /\ UNCHANGED <<now, q, sched, due, instAt>>
+    /\ act' = [op |-> "defer", k |-> f, a |-> 0] /\ QuietOff /\ UNCHANGED <<now, q, sched, due, instAt>>
 
 ----------------------------------------------------------------------------
 \* core.run_once as a function on a record of the mutable state
@@ -150,7 +163,7 @@ Pass(st, n) ==
              ELSE LET d0 == DeferIn(popped, TaskDefers[k])
                       d  == Effect(d0, k, n)
                       r  == IF k \in Rec
-                            THEN LET t == NextSlot(n, Interval[k], Offset[k]) IN
+                            THEN LET t == NextSlot(n, Interval[k], off[k]) IN
                                  [d EXCEPT !.q = Insert(@, t, k), !.sched[k] = TRUE, !.due[k] = t, !.instAt[k] = n]
                             ELSE d
                       dr == Drain(r)
@@ -164,17 +177,17 @@ Run(d) ==
         /\ out' = r.out /\ called' = r.called /\ submitted' = r.submitted
         /\ calledLog' = calledLog \o r.called
         /\ act' = [op |-> "run", k |-> 0, a |-> d]
-        /\ UNCHANGED <<TaskRaises, FnRaises, mgr, early>>
+        /\ UNCHANGED <<TaskRaises, FnRaises, off, mgr, early>>
 
 \* the clock moves on without a pass of the loop (it is waiting in select, another thread is about to install a timer):
 \* what is installed afterwards is relative to the clock as it is then
 Tick(d) ==
     /\ now' = now + d
-    /\ act' = [op |-> "tick", k |-> 0, a |-> d] /\ Quiet /\ UNCHANGED <<q, sched, due, instAt, defq, submitted>>
+    /\ act' = [op |-> "tick", k |-> 0, a |-> d] /\ QuietOff /\ UNCHANGED <<q, sched, due, instAt, defq, submitted>>
 
 \* ---- before a task manager exists (module-level tasks, tasks installed from constructors before core.run) ----------
 \* install_task only remembers the task; TaskManager.__init__ installs what was remembered, in the order of the calls
-QuietEarly == out' = <<>> /\ called' = <<>> /\ UNCHANGED <<now, q, sched, defq, submitted, calledLog, TaskRaises, FnRaises, mgr>>
+QuietEarly == out' = <<>> /\ called' = <<>> /\ UNCHANGED <<now, q, sched, defq, submitted, calledLog, TaskRaises, FnRaises, off, mgr>>
 EarlyAt(k, t) ==
     /\ ~mgr /\ k \notin Rec
     /\ early' = Append(early, k) /\ due' = [due EXCEPT ![k] = t] /\ instAt' = [instAt EXCEPT ![k] = now]
@@ -195,19 +208,20 @@ RECURSIVE Boot(_, _, _)
 Boot(r, lst, i) ==
     IF i > Len(lst) THEN r
     ELSE LET k == lst[i]
-             t == IF k \in Rec THEN NextSlot(now, Interval[k], Offset[k]) ELSE r.due[k]
+             t == IF k \in Rec THEN NextSlot(now, Interval[k], off[k]) ELSE r.due[k]
          IN  Boot([r EXCEPT !.q = Insert(Remove(@, k), t, k), !.sched[k] = TRUE, !.due[k] = t], lst, i + 1)
 Start ==
     /\ ~mgr /\ mgr' = TRUE /\ early' = <<>>
     /\ LET r == Boot([q |-> q, sched |-> sched, due |-> due], early, 1) IN q' = r.q /\ sched' = r.sched /\ due' = r.due
     /\ act' = [op |-> "start", k |-> 0, a |-> 0]
-    /\ out' = <<>> /\ called' = <<>> /\ UNCHANGED <<now, instAt, defq, submitted, calledLog, TaskRaises, FnRaises>>
+    /\ out' = <<>> /\ called' = <<>> /\ UNCHANGED <<now, instAt, defq, submitted, calledLog, TaskRaises, FnRaises, off>>
 
 LateNext ==
     \/ \E d \in TickSteps : Tick(d)
     \/ \E k \in K, t \in Times : InstallAt(k, t)
     \/ \E k \in K, d \in Deltas : InstallAfter(k, d)
     \/ \E k \in K : InstallRec(k) \/ Suspend(k) \/ Resume(k)
+    \/ \E k \in Rec, o \in OffGrid : InstallRecOff(k, o)
     \/ \E f \in F : Defer(f)
     \/ \E d \in Steps : Run(d)
 Next ==
@@ -232,10 +246,10 @@ FireOrderVsQueued  == \A i \in 1..Len(out) : \A j \in 1..Len(q) :
 \* a pass fires a task at most once unless it is recurring (fires once per installation)
 OncePerInstall     == \A i, j \in 1..Len(out) : (i # j /\ out[i][1] = out[j][1]) => out[i][1] \in Rec
 \* recurring slot rule: due = offset (mod interval), strictly after the installation, at most one interval later
-RecurringSlots     == \A k \in Rec : sched[k] /\ act.op \in {"rec", "run"} /\ instAt[k] # NONE /\ due[k] # NONE
-                          /\ (act.op = "rec" => act.k = k)
+RecurringSlots     == \A k \in Rec : sched[k] /\ act.op \in {"rec", "reoff", "run"} /\ instAt[k] # NONE /\ due[k] # NONE
+                          /\ (act.op \in {"rec", "reoff"} => act.k = k)
                           /\ (act.op = "run" => \E i \in 1..Len(out) : out[i][1] = k)
-                          => /\ (due[k] - Offset[k]) % Interval[k] = 0
+                          => /\ (due[k] - off[k]) % Interval[k] = 0
                              /\ due[k] > instAt[k] /\ due[k] - instAt[k] <= Interval[k]
 \* every deferred function is either already called or still queued, in submission order: nothing is lost,
 \* nothing is called twice, nothing is called out of order -- whatever raises
